@@ -38,6 +38,13 @@ type Ctx struct {
 	fileOf    map[*ast.File]*packages.Package
 
 	stats LoadStats
+
+	modFuncs  []*ssa.Function
+	sites     *siteIndex
+	modref    map[*ssa.Function]map[string]bool
+	fieldLen  map[string]int64
+	summaries map[*ssa.Function][]resultSummary
+	impls     map[*types.Func][]*ssa.Function
 }
 
 type LoadStats struct {
